@@ -175,7 +175,10 @@ func (this *Hnsw) Remove(id uuid.UUID) error {
 		for l := vertex.level; l >= 0; l-- {
 			vertex.edgeMutexes[l].RLock()
 			for neighbor, distance := range vertex.edges[l] {
-				if distance < minDistance {
+				if neighbor.isDeleted() {
+					continue
+				}
+				if closestNeighbor == nil || distance < minDistance {
 					minDistance = distance
 					closestNeighbor = neighbor
 				}
@@ -185,6 +188,11 @@ func (this *Hnsw) Remove(id uuid.UUID) error {
 			if closestNeighbor != nil {
 				break
 			}
+		}
+		if closestNeighbor == nil {
+			// No live linked neighbor. Fall back to any remaining vertex so that
+			// a non-empty index always has an entrypoint.
+			closestNeighbor = this.highestLiveVertex()
 		}
 		atomic.CompareAndSwapPointer(&this.entrypoint, currEntrypoint, unsafe.Pointer(closestNeighbor))
 	}
@@ -253,6 +261,20 @@ func (this *Hnsw) RandomLevel() int {
 func (this *Hnsw) getVerticesShard(id uuid.UUID) (map[uuid.UUID]*hnswVertex, *sync.RWMutex) {
 	shardIdx := utils.UuidMod(id, uint64(VERTICES_MAP_SHARD_COUNT))
 	return this.vertices[shardIdx], this.verticesMu[shardIdx]
+}
+
+func (this *Hnsw) highestLiveVertex() *hnswVertex {
+	var best *hnswVertex
+	for i := range this.vertices {
+		this.verticesMu[i].RLock()
+		for _, vertex := range this.vertices[i] {
+			if best == nil || vertex.level > best.level {
+				best = vertex
+			}
+		}
+		this.verticesMu[i].RUnlock()
+	}
+	return best
 }
 
 func (this *Hnsw) storeVertex(vertex *hnswVertex) error {
